@@ -556,7 +556,7 @@ def run(ctx) -> Result:
         "approximated derivatives are outside this check (C16)",
     ]
     rng = ctx.rng
-    n = 8000 if ctx.thorough else 1500
+    n = 40000 if ctx.thorough else 1500
     cases = load_corpus() + [gen_case(rng) for _ in range(n)]
     models = batch_model(cases)
     for c, m in zip(cases, models):
